@@ -17,7 +17,12 @@ Ends == <<[v |-> 4, a |-> <<10, 0, 0, 1>>, b |-> <<10, 0, 0, 2>>, pa |-> 40000, 
           [v |-> 4, a |-> <<10, 0, 0, 1>>, b |-> <<10, 0, 0, 2>>, pa |-> 40001, pb |-> 80],
           [v |-> 4, a |-> <<192, 168, 7, 9>>, b |-> <<10, 0, 0, 2>>, pa |-> 40000, pb |-> 443],
           [v |-> 6, a |-> Src6, b |-> Dst6, pa |-> 50000, pb |-> 8080],
-          [v |-> 6, a |-> Dst6, b |-> [Dst6 EXCEPT ![16] = 9], pa |-> 50000, pb |-> 8080]>>
+          [v |-> 6, a |-> Dst6, b |-> [Dst6 EXCEPT ![16] = 9], pa |-> 50000, pb |-> 8080],
+          \* both ends on one address (loopback, hairpin), equal ports, lower address with the lower port
+          [v |-> 4, a |-> <<127, 0, 0, 1>>, b |-> <<127, 0, 0, 1>>, pa |-> 40000, pb |-> 8080],
+          [v |-> 6, a |-> Src6, b |-> Src6, pa |-> 8080, pb |-> 50000],
+          [v |-> 4, a |-> <<10, 0, 0, 1>>, b |-> <<10, 0, 0, 2>>, pa |-> 5000, pb |-> 5000],
+          [v |-> 4, a |-> <<10, 0, 0, 1>>, b |-> <<10, 0, 0, 2>>, pa |-> 80, pb |-> 40000]>>
 
 Std == [opts |-> <<[k |-> "mss", v |-> 1460], [k |-> "sok"], [k |-> "ts", val |-> <<0, 0, 1, 44>>, ecr |-> Zero4], [k |-> "nop"], [k |-> "ws", v |-> 7]>>, trail |-> <<>>]
 Pay(n) == [i \in 1..n |-> 65 + (i % 26)]
